@@ -1162,7 +1162,14 @@ impl TypeChecker {
     ) -> TypeResult<(&'a Meta<Identifier>, Declaration)> {
         let mut ident = idents.next().unwrap();
 
+        // Only the first identifier of a path is looked up in the enclosing
+        // scopes and their imports. Everything after that, including the
+        // identifier that follows leading `super`s, must be a direct member
+        // of the item before it.
+        let mut recurse = true;
+
         while ident.node == "super".into() {
+            recurse = false;
             let Some(dec) = self.type_info.scope_graph.parent_module(scope)
             else {
                 return Err(self.error_simple(
@@ -1189,7 +1196,6 @@ impl TypeChecker {
         // The current implementation is a bit strange because it uses
         // resolve_name, but after the first identifier, it should actually
         // not really traverse the scope graph.
-        let mut recurse = true;
         loop {
             if ident.node == "super".into() {
                 return Err(self.error_simple(
